@@ -43,7 +43,7 @@ impl Prop for C03 {
         "C03"
     }
     fn rule(&self) -> String {
-        "families: direct (every ordered pair of unit names inside each commensurability class of the table x 5 magnitudes), prefix-src/prefix-tgt (every prefix spelling on a 30-unit core, single-reading words only: x <P>u to u = x*10^p exactly), power (a^n to b^n, n in -3..3, all class pairs), composite (products/quotients of 2-4 pairwise commensurable factors: km/h->m/s, kW*h->J, lb*ft/s^2->N, ...), and the table-free laws evaluated on the real code only: round trip ((x a to b) to a = x), via ((x a to c) to b = x a to b for all triples per class), scaling ((k x) a to b = k (x a to b)). Table oracle: SI value and dimensions preserved and the result is expressed in the target unit. Non-trivial = source and target differ; distinct = distinct query strings".into()
+        "families: pfxpow (every prefix symbol x every power -3..3 on an SI core, as source, as target and prefix-to-prefix), direct (every ordered pair of unit names inside each commensurability class of the table x 5 magnitudes), prefix-src/prefix-tgt (every prefix spelling on a 30-unit core, single-reading words only: x <P>u to u = x*10^p exactly), power (a^n to b^n, n in -3..3, all class pairs), composite (products/quotients of 2-4 pairwise commensurable factors: km/h->m/s, kW*h->J, lb*ft/s^2->N, ...), and the table-free laws evaluated on the real code only: round trip ((x a to b) to a = x), via ((x a to c) to b = x a to b for all triples per class), scaling ((k x) a to b = k (x a to b)). Table oracle: SI value and dimensions preserved and the result is expressed in the target unit. Non-trivial = source and target differ; distinct = distinct query strings".into()
     }
     fn assumptions(&self) -> Vec<String> {
         vec!["unit scales from the independent table (documented meanings); the table-free laws need no table".into(), "offset scales are C09's subject".into()]
@@ -88,6 +88,33 @@ impl Prop for C03 {
                     for x in ["1", "0.75", "-2"] {
                         sink(Case::with("prefix-src", format!("{x} {w} to {u}"), serde_json::json!({"x": x, "a": w, "b": u})));
                         sink(Case::with("prefix-tgt", format!("{x} {u} to {w}"), serde_json::json!({"x": x, "a": u, "b": w})));
+                    }
+                }
+            }
+        }
+        // prefix x power: every prefix symbol on an SI core, raised to every power -3..3, as source,
+        // as target, and prefix-to-prefix (an SI prefix is exactly its power of ten *under powers too*)
+        let si_core = ["m", "s", "g", "l", "N", "J", "W", "A", "V", "B"];
+        let syms: Vec<&str> = PREFIXES.iter().map(|p| p.0).collect();
+        for u in si_core.iter().take(tier.pick(6, 10)) {
+            for p in &syms {
+                let w = format!("{p}{u}");
+                if !tables::typeable(&w) || !single_reading(&w) || tables::find_by_name(&w).is_some() {
+                    continue;
+                }
+                for n in [-3i64, -2, -1, 1, 2, 3] {
+                    let (wa, ua) = (format!("{w}^{n}"), format!("{u}^{n}"));
+                    sink(Case::with("pfxpow-src", format!("3 {wa} to {ua}"), serde_json::json!({"x": "3", "a": wa, "b": ua, "w": w})));
+                    sink(Case::with("pfxpow-tgt", format!("3 {ua} to {wa}"), serde_json::json!({"x": "3", "a": ua, "b": wa, "w": w})));
+                    if *u == "m" || *u == "s" || tier == Tier::Thorough {
+                        for q in &syms {
+                            let w2 = format!("{q}{u}");
+                            if q == p || !tables::typeable(&w2) || !single_reading(&w2) || tables::find_by_name(&w2).is_some() {
+                                continue;
+                            }
+                            let wb = format!("{w2}^{n}");
+                            sink(Case::with("pfxpow-both", format!("3 {wa} to {wb}"), serde_json::json!({"x": "3", "a": wa, "b": wb, "w": w, "w2": w2})));
+                        }
                     }
                 }
             }
@@ -166,6 +193,15 @@ impl Prop for C03 {
                 return Verdict::DontCare("word misread by the unit lexer (C05's recorded finding)");
             }
         }
+        if case.fam.starts_with("pfxpow-") {
+            for k in ["w", "w2"] {
+                if let Some(w) = case.data[k].as_str() {
+                    if crate::props::c05::misread_by_lexer(env, w) {
+                        return Verdict::DontCare("word misread by the unit lexer (C05's recorded finding)");
+                    }
+                }
+            }
+        }
         let got = match obs::eval_one(env.db(), q) {
             Ok(r) => r,
             Err(why) => return fw::fail(sig("results"), format!("{q}: {why}")),
@@ -193,7 +229,7 @@ impl Prop for C03 {
         let nontrivial = a != b;
         let int = |n: i64| BigRational::from_integer(BigInt::from(n));
         match case.fam {
-            "direct" | "prefix-src" | "prefix-tgt" | "power" | "composite" => {
+            "direct" | "prefix-src" | "prefix-tgt" | "power" | "composite" | "pfxpow-src" | "pfxpow-tgt" | "pfxpow-both" => {
                 let x = ref_decimal(case.data["x"].as_str().unwrap()).unwrap();
                 let want = x * &ma.scale;
                 if si.dim != mb.dim || si.value != want {
